@@ -86,6 +86,14 @@ impl<T, B> IdleConnections<T, B> {
         idle_entry
     }
 
+    pub(super) fn retain_open(&mut self)
+    where
+        T: PoolableConnection<B>,
+        B: Send + 'static,
+    {
+        self.inner.retain(|entry| entry.inner.is_open());
+    }
+
     pub(super) fn len(&self) -> usize {
         self.inner.len()
     }
